@@ -14,7 +14,10 @@ import (
 	"fmt"
 	"io"
 	"os"
+	"regexp"
 	"strconv"
+	"strings"
+	"sync"
 
 	"mellium.im/xmlstream"
 	"mellium.im/xmpp"
@@ -30,6 +33,9 @@ type Req struct {
 	Kind  string `json:"kind"` // iq message presence
 	Call  string `json:"call"` // sendiq sendiqel unmarshaliq encodeiq sendmsg sendpres
 	Reads int    `json:"reads"`
+	// IDMode: "" = the caller supplies the id (its own name); "absent" = no id attribute, "empty" = an
+	// empty id attribute: the library generates the id, the peer answers with the id it saw on the wire
+	IDMode string `json:"idmode"`
 }
 
 type Item struct {
@@ -70,6 +76,8 @@ func nopNeg(ns string) xmpp.Negotiator {
 	}
 }
 
+var wireRe = regexp.MustCompile(`<(?:iq|message|presence)[^>]*\bid="([^"]*)"[^>]*>\s*<x [^>]*who="([^"]*)"`)
+
 func itemBytes(it Item) string {
 	switch it.Kind {
 	case "iq":
@@ -96,6 +104,7 @@ func itemBytes(it Item) string {
 
 type payload struct {
 	XMLName xml.Name `xml:"urn:vt:x x"`
+	Who     string   `xml:"who,attr,omitempty"`
 }
 
 type result struct {
@@ -113,14 +122,45 @@ func runSchedule(sc Scenario, choices []int) result {
 		panic(err)
 	}
 	sched := vt.NewSched()
+	// ids: a requester's stanza id is its own name unless the library generates it; then the
+	// events are normalised to the requester's name: requester-side hooks by the goroutine they
+	// run in, serve-side hooks and handler calls by the id seen on the wire for that request
+	isReq := map[string]bool{}
+	for _, r := range sc.Reqs {
+		isReq[r.Name] = true
+	}
+	var idmu sync.Mutex
+	wireID := map[string]string{} // id on the wire -> requester
+	nameOfWire := func(id string) string {
+		idmu.Lock()
+		defer idmu.Unlock()
+		if n, ok := wireID[id]; ok {
+			return n
+		}
+		return id
+	}
 	xmpp.VerifHook = func(point, id string) {
 		if !sched.Mine() {
 			return
 		}
+		who := sched.Who()
+		switch {
+		case strings.HasPrefix(point, "resp.") && isReq[who]:
+			id = who
+		case strings.HasPrefix(point, "serve."):
+			id = nameOfWire(id)
+		}
 		// log on arrival: the hooks sit right after a state change (or right before a
 		// blocking operation), so the event belongs to the run slot that made the change
-		lg.Add(vt.Ev{"ev": "hook", "p": sched.Who(), "point": point, "id": id})
+		lg.Add(vt.Ev{"ev": "hook", "p": who, "point": point, "id": id})
 		sched.Gate(point)
+	}
+	conn.React = func(p []byte) {
+		for _, m := range wireRe.FindAllStringSubmatch(string(p), -1) {
+			idmu.Lock()
+			wireID[m[1]] = m[2]
+			idmu.Unlock()
+		}
 	}
 	defer func() { xmpp.VerifHook = nil }()
 	conn.Gate = func(point string) { sched.Gate(point) }
@@ -138,7 +178,17 @@ func runSchedule(sc Scenario, choices []int) result {
 			var resp xmlstream.TokenReadCloser
 			var err error
 			body := func() xml.TokenReader {
-				return xmlstream.Wrap(nil, xml.StartElement{Name: xml.Name{Space: "urn:vt:x", Local: "x"}})
+				return xmlstream.Wrap(nil, xml.StartElement{Name: xml.Name{Space: "urn:vt:x", Local: "x"},
+					Attr: []xml.Attr{{Name: xml.Name{Local: "who"}, Value: r.Name}}})
+			}
+			reqID := r.Name
+			if r.IDMode != "" {
+				reqID = ""
+			}
+			// a request whose start element carries an EMPTY id attribute (legal input for SendIQ)
+			rawIQ := func(typ string) xml.TokenReader {
+				return xmlstream.Wrap(body(), xml.StartElement{Name: xml.Name{Local: "iq"}, Attr: []xml.Attr{
+					{Name: xml.Name{Local: "id"}, Value: ""}, {Name: xml.Name{Local: "type"}, Value: typ}}})
 			}
 			func() {
 				defer func() {
@@ -148,18 +198,22 @@ func runSchedule(sc Scenario, choices []int) result {
 				}()
 				switch r.Call {
 				case "sendiq":
-					resp, err = sess.SendIQ(ctx, stanza.IQ{ID: r.Name, Type: stanza.GetIQ}.Wrap(body()))
+					if r.IDMode == "empty" {
+						resp, err = sess.SendIQ(ctx, rawIQ("get"))
+					} else {
+						resp, err = sess.SendIQ(ctx, stanza.IQ{ID: reqID, Type: stanza.GetIQ}.Wrap(body()))
+					}
 				case "sendiqel":
-					resp, err = sess.SendIQElement(ctx, body(), stanza.IQ{ID: r.Name, Type: stanza.SetIQ})
+					resp, err = sess.SendIQElement(ctx, body(), stanza.IQ{ID: reqID, Type: stanza.SetIQ})
 				case "encodeiq":
-					resp, err = sess.EncodeIQElement(ctx, payload{}, stanza.IQ{ID: r.Name, Type: stanza.GetIQ})
+					resp, err = sess.EncodeIQElement(ctx, payload{Who: r.Name}, stanza.IQ{ID: reqID, Type: stanza.GetIQ})
 				case "unmarshaliq":
 					var v payload
-					err = sess.UnmarshalIQ(ctx, stanza.IQ{ID: r.Name, Type: stanza.GetIQ}.Wrap(body()), &v)
+					err = sess.UnmarshalIQ(ctx, stanza.IQ{ID: reqID, Type: stanza.GetIQ}.Wrap(body()), &v)
 				case "sendmsg":
-					resp, err = sess.SendMessage(ctx, stanza.Message{ID: r.Name, Type: stanza.NormalMessage}.Wrap(body()))
+					resp, err = sess.SendMessage(ctx, stanza.Message{ID: reqID, Type: stanza.NormalMessage}.Wrap(body()))
 				case "sendpres":
-					resp, err = sess.SendPresence(ctx, stanza.Presence{ID: r.Name}.Wrap(body()))
+					resp, err = sess.SendPresence(ctx, stanza.Presence{ID: reqID}.Wrap(body()))
 				default:
 					panic("call " + r.Call)
 				}
@@ -175,7 +229,7 @@ func runSchedule(sc Scenario, choices []int) result {
 					e["rkind"] = st.Name.Local
 					for _, a := range st.Attr {
 						if a.Name.Local == "id" {
-							e["rid"] = a.Value
+							e["rid"] = nameOfWire(a.Value)
 						}
 					}
 				}
@@ -217,7 +271,7 @@ func runSchedule(sc Scenario, choices []int) result {
 			}
 		}
 		resp := typ == "result" || typ == "error"
-		lg.Add(vt.Ev{"ev": "handler", "id": id, "kind": start.Name.Local, "resp": resp})
+		lg.Add(vt.Ev{"ev": "handler", "id": nameOfWire(id), "kind": start.Name.Local, "resp": resp})
 		return nil
 	})
 	sched.Go("s", func() {
@@ -234,12 +288,37 @@ func runSchedule(sc Scenario, choices []int) result {
 	fed := 0
 	for i, it := range sc.Peer {
 		i, it := i, it
+		onWire := func(name string) (string, bool) {
+			idmu.Lock()
+			defer idmu.Unlock()
+			for id, n := range wireID {
+				if n == name {
+					return id, true
+				}
+			}
+			return "", false
+		}
 		sched.Env(&vt.EnvAction{Name: fmt.Sprintf("peer%d", i), Once: true,
-			Enabled: func() bool { return fed == i },
+			Enabled: func() bool {
+				if fed != i {
+					return false
+				}
+				if strings.HasPrefix(it.ID, "@") { // answers the request it has seen on the wire
+					_, ok := onWire(it.ID[1:])
+					return ok
+				}
+				return true
+			},
 			Do: func() {
 				fed++
-				lg.Add(vt.Ev{"ev": "peer", "item": vt.Ev{"id": it.ID, "kind": it.Kind, "resp": it.Resp}})
-				conn.FeedString(itemBytes(it))
+				x := it
+				name := it.ID
+				if strings.HasPrefix(it.ID, "@") {
+					name = it.ID[1:]
+					x.ID, _ = onWire(name)
+				}
+				lg.Add(vt.Ev{"ev": "peer", "item": vt.Ev{"id": name, "kind": it.Kind, "resp": it.Resp}})
+				conn.FeedString(itemBytes(x))
 			}})
 	}
 	for _, c := range sc.Cancels {
@@ -277,6 +356,26 @@ func runSchedule(sc Scenario, choices []int) result {
 	})
 	if note == "stuck" {
 		lg.Add(vt.Ev{"ev": "stuck", "blocked": fmt.Sprint(sched.Blocked())})
+	}
+	// C07 seen from here: every get/set the peer sent must have got exactly one reply on the wire
+	{
+		counts := map[string]int{}
+		var scn vt.Scanner
+		for _, t := range scn.Feed([]byte(conn.WireString())) {
+			if (t.Kind == "start" || t.Kind == "empty") && t.Depth == 0 && vt.Local(t.Name) == "iq" &&
+				(t.Attr["type"] == "error" || t.Attr["type"] == "result") {
+				counts[t.Attr["id"]]++
+			}
+		}
+		items := []interface{}{}
+		seen := map[string]bool{}
+		for _, it := range sc.Peer {
+			if it.Kind == "iq" && !it.Resp && !seen[it.ID] {
+				seen[it.ID] = true
+				items = append(items, vt.Ev{"id": it.ID, "n": counts[it.ID]})
+			}
+		}
+		lg.Add(vt.Ev{"ev": "replies", "items": items})
 	}
 	lg.Add(vt.Ev{"ev": "end"})
 	sched.Stop()
